@@ -37,14 +37,18 @@ def run(ctx):
                     Diagonal="TRUE" if quick else "FALSE", TamperAllMax=tam, WrapJs=S([]), Prefixes=S(pre), OutFile=core.tla_str(o))
         base.update(kw)
         jobs.append(dict(module="MC_C04", name="MC_C04_" + name, view="View", constants=base, invariants=("SealAppendsOnly",), workers=4, timeout=3300))
+    # the fused GHASH+CTR bulk loops (96-bit nonce, 16-byte tag): every residue class of the 16/64/128-byte steps
+    bulk = sorted(set(plens + [31, 47, 63, 79, 95, 111, 113, 127, 128, 241, 255, 256]))
     for i, n in enumerate(gn):
-        job("gcm_n%d" % n, Algs=q(["gcm"]), GcmNonceLens=S([n]), WrapJs=S(wrap if n == 16 else []), Diagonal="TRUE" if (quick or n not in (12, 16)) else "FALSE")
+        job("gcm_n%d" % n, Algs=q(["gcm"]), GcmNonceLens=S([n]), WrapJs=S(wrap if n == 16 else []), Diagonal="TRUE" if (quick or n not in (12, 16)) else "FALSE",
+            PLens=S(bulk if n == 12 else plens), TamperAllMax=(tam if n != 12 or not quick else 3))
     job("gcm_tags", Algs=q(["gcm"]), GcmTagLens=S(gt), Diagonal="TRUE")
     for n in cn:
         job("ccm_n%d" % n, Algs=q(["ccm"]), CcmNonceLens=S([n]), CcmTagLens=S(ct if n in (7, 13) or not quick else [ct[0], ct[-1]]),
             Diagonal="TRUE" if (quick or n not in (7, 13)) else "FALSE")
-    if not quick:
-        job("ccm_longaad", Algs=q(["ccm"]), CcmNonceLens=S([12]), CcmTagLens=S([16]), PLens=S([17]), ALens=S([65279, 65280]), TamperAllMax=0, Prefixes=S([0]), Diagonal="FALSE")
+    # RFC 3610 AAD length encoding seam (2 octets below 2^16-2^8, 0xFFFE + 4 octets from there on)
+    job("ccm_longaad", Algs=q(["ccm"]), CcmNonceLens=S([12]), CcmTagLens=S([16]), PLens=S([17]), ALens=S([65280] if quick else [65279, 65280, 65535, 65536]),
+        TamperAllMax=0, Prefixes=S([0]), Diagonal="FALSE")
     ctx.tlc_many(jobs, parallel=6)
     core.cat_files(outs, out)
     cf = cfgs.k_sm4(("native", "blockonly"), full=True)
